@@ -442,13 +442,123 @@ def r5_gathering(ctx):
 
 
 # ---------------------------------------------------------------------------
+def _seq_value(e, env, mod, depth=0):
+    """tuple of string constants denoted by a list / tuple expression under env, or None"""
+    if depth > 6:
+        return None
+    if isinstance(e, (ast.List, ast.Tuple)):
+        if all(isinstance(x, ast.Constant) and isinstance(x.value, str) for x in e.elts):
+            return tuple(x.value for x in e.elts)
+        return None
+    if isinstance(e, ast.Name):
+        if e.id in env:
+            v = env[e.id]
+            return v if isinstance(v, tuple) and (not v or v[0] != '@join') else None
+        tops = [st for st in mod.tree.body if isinstance(st, ast.Assign) and len(st.targets) == 1 and is_name(st.targets[0], e.id)]
+        if len(tops) == 1:
+            return _seq_value(tops[0].value, {}, mod, depth + 1)
+        return None
+    if isinstance(e, ast.BinOp) and isinstance(e.op, ast.Add):
+        a, b = _seq_value(e.left, env, mod, depth + 1), _seq_value(e.right, env, mod, depth + 1)
+        return None if a is None or b is None else a + b
+    if isinstance(e, ast.Call) and isinstance(e.func, ast.Name) and e.func.id in ('list', 'tuple') and len(e.args) == 1 and not e.keywords:
+        return _seq_value(e.args[0], env, mod, depth + 1)
+    return None
+
+
+def _joined(e, env, mod):
+    """(separator, tuple) when e denotes sep.join(<sequence of constants>)"""
+    if isinstance(e, ast.Name) and isinstance(env.get(e.id), tuple) and env[e.id][:1] == ('@join',):
+        return env[e.id][1], env[e.id][2]
+    if isinstance(e, ast.Call) and isinstance(e.func, ast.Attribute) and e.func.attr == 'join' and isinstance(e.func.value, ast.Constant) \
+            and isinstance(e.func.value.value, str) and len(e.args) == 1:
+        v = _seq_value(e.args[0], env, mod)
+        if v is not None:
+            return e.func.value.value, v
+    return None
+
+
+def disable_pattern_sets(ctx):
+    """the marker patterns DocTest.is_disabled applies, separately for the native run (pytest flag false) and the plugin (true):
+    a path-sensitive walk of its flow graph that tracks lists / tuples of string constants through assignment, +, += and extend.
+    -> (f, {flag: [(call node, call, separator, patterns)]})"""
+    from collections import deque
+    f = ctx.func('xdoctest.doctest_example.DocTest.is_disabled')
+    g = ctx.cfg(f)
+    mod = f.module
+    params = [a.arg for a in f.node.args.args][1:]
+    need(len(params) == 1, 'C10.R6: is_disabled takes one flag')
+    flag = params[0]
+    out = {}
+    for val in (False, True):
+        found = []
+        seen = set()
+        work = deque([(g.entry, ((flag, val),))])
+        while work:
+            n, envt = work.popleft()
+            if (id(n), envt) in seen:
+                continue
+            seen.add((id(n), envt))
+            env = dict(envt)
+            if not n.dup:
+                for c in node_calls(n):
+                    if isinstance(c.func, ast.Attribute) and is_name(c.func.value, 're') and c.func.attr in ('match', 'search', 'fullmatch', 'findall', 'finditer') and c.args:
+                        j = _joined(c.args[0], env, mod)
+                        need(j is not None, 'C10.R6: the pattern applied by %s is not a join of constant marker patterns' % ctx.src(c, 80))
+                        found.append((n, c, j[0], j[1]))
+            if n.kind == 'stmt':
+                st = n.ast
+                if isinstance(st, ast.Assign) and len(st.targets) == 1 and isinstance(st.targets[0], ast.Name):
+                    nm = st.targets[0].id
+                    v = _seq_value(st.value, env, mod)
+                    if v is None:
+                        j = _joined(st.value, env, mod)
+                        v = ('@join', j[0], j[1]) if j is not None else None
+                    if v is None and isinstance(st.value, ast.Constant):
+                        v = ('@const', st.value.value)
+                    if v is None:
+                        env.pop(nm, None)
+                    else:
+                        env[nm] = v
+                elif isinstance(st, ast.AugAssign) and isinstance(st.target, ast.Name):
+                    nm = st.target.id
+                    v = _seq_value(st.value, env, mod)
+                    cur = env.get(nm)
+                    if isinstance(st.op, ast.Add) and v is not None and isinstance(cur, tuple) and cur[:1] not in (('@join',), ('@const',)):
+                        env[nm] = cur + v
+                    else:
+                        env.pop(nm, None)
+                elif isinstance(st, ast.Expr) and isinstance(st.value, ast.Call) and isinstance(st.value.func, ast.Attribute) and isinstance(st.value.func.value, ast.Name):
+                    nm, m, c = st.value.func.value.id, st.value.func.attr, st.value
+                    cur = env.get(nm)
+                    if isinstance(cur, tuple) and cur[:1] not in (('@join',), ('@const',)):
+                        if m == 'extend' and len(c.args) == 1 and _seq_value(c.args[0], env, mod) is not None:
+                            env[nm] = cur + _seq_value(c.args[0], env, mod)
+                        elif m == 'append' and len(c.args) == 1 and isinstance(c.args[0], ast.Constant) and isinstance(c.args[0].value, str):
+                            env[nm] = cur + (c.args[0].value,)
+                        elif m in ('insert', 'remove', 'pop', 'clear', 'sort', 'reverse', 'extend', 'append'):
+                            env.pop(nm, None)
+            tenv = {k: (v[1] if isinstance(v, tuple) and v[:1] == ('@const',) else v) for k, v in env.items() if not isinstance(v, tuple) or v[:1] == ('@const',)}
+            nenvt = tuple(sorted(env.items(), key=repr))
+            for (t, kind, tok) in n.succ:
+                if not graph.normal_only(n, t, kind, tok):
+                    continue
+                if t.kind == 'branch' and t.attrs['test'].kind == 'test' and t.attrs['polarity'] in (True, False):
+                    tr = graph._env_truth(t.attrs['test'].ast, tenv)
+                    if tr is not None and tr != t.attrs['polarity']:
+                        continue
+                work.append((t, nenvt))
+        out[val] = found
+    return f, out
+
+
 def disable_marker_anchored(ctx, rule):
     """force-disabling is decided by the FIRST line of the doctest only: the marker patterns are matched anchored at the
     start of the doctest source (re.match, or an explicit \\A / ^ without MULTILINE); a search anywhere would silently
     drop every doctest that merely mentions such a comment later on"""
     from .. import consts
     rep = ctx.rep
-    f = ctx.func('xdoctest.doctest_example.DocTest.is_disabled')
+    f, sets = disable_pattern_sets(ctx)
     g = ctx.cfg(f)
     rd = ctx.rd(f)
     recv = f.node.args.args[0].arg
@@ -461,23 +571,18 @@ def disable_marker_anchored(ctx, rule):
         anchored = c.func.attr == 'match'
         if c.func.attr == 'search':
             # every alternative must start with an explicit start anchor and MULTILINE must be off
-            pats = []
-            for d in rd.defs_of('disable_patterns'):
-                if isinstance(d.value, ast.List):
-                    pats += [e.value for e in d.value.elts if isinstance(e, ast.Constant)]
+            pats = [p for v in sets.values() for (n2, c2, sep, ps) in v if c2 is c for p in ps]
             flags = next((k.value for k in c.keywords if k.arg == 'flags'), c.args[2] if len(c.args) > 2 else None)
-            multiline = flags is not None and 'M' in {x.attr for x in ast.walk(flags) if isinstance(x, ast.Attribute)} | {x.attr[:1] for x in ast.walk(flags) if isinstance(x, ast.Attribute) and x.attr == 'MULTILINE'}
+            multiline = flags is not None and bool({x.attr for x in ast.walk(flags) if isinstance(x, ast.Attribute)} & {'M', 'MULTILINE'})
             anchored = bool(pats) and all(p.startswith(('\\A', '^')) for p in pats) and not multiline
         rep.ob(rule, ctx.loc(f, c), ctx.src(c, 100), anchored and on_src,
                'the markers are matched at the very start of the doctest source' if anchored and on_src else
                ('the disable markers are searched anywhere in the doctest source: a doctest that only mentions `# SCRIPT`, `# FAILING`, ... in a later line is force-disabled, '
                 'i.e. never run by `all` and missing from the tallies' if on_src else 'the markers are not matched against the doctest source'), anchor=f.qualname)
     # first alternatives start with the primary prompt
-    pats = []
-    for d in rd.defs_of('disable_patterns'):
-        v = d.value if isinstance(d.value, ast.List) else (d.value.value if isinstance(d.value, ast.AugAssign) and isinstance(d.value.value, ast.List) else None)
-        if v is not None:
-            pats += [e.value for e in v.elts if isinstance(e, ast.Constant) and isinstance(e.value, str)]
+    pats = sorted({p for v in sets.values() for (n2, c2, sep, ps) in v for p in ps})
+    seps = {sep for v in sets.values() for (n2, c2, sep, ps) in v}
+    need(seps == {'|'}, 'C10.R6: the marker patterns are not joined as alternatives')
     ok = bool(pats) and all(p.lstrip('\\A^').startswith('>>>') for p in pats)
     rep.ob(rule, ctx.loc(f, f.node), 'every marker pattern starts with the prompt', ok, '%d pattern(s)' % len(pats), nontrivial=False, anchor=f.qualname)
 
